@@ -140,6 +140,10 @@ impl Prop for FuzzPart {
     fn name(&self) -> &'static str {
         self.name
     }
+    fn case_timeout_s(&self) -> u64 {
+        // a whole campaign is one case
+        7_200
+    }
     fn cases(&self, _tier: Tier) -> u64 {
         0
     }
